@@ -218,18 +218,43 @@ def flushResp (C : BlockCipher) (key : Bytes) (seen out : Bytes) : Resp :=
     | none => { ran := true, seen := seen, status := 500 }
     | some ct => { ran := true, seen := seen, status := 200, body := asciiBytes (b64Encode ct) }
 
-/-- `LimitCryptionHandler(limitBytes, key)(next)`; `cl` is `r.ContentLength`, `raw` the bytes in `r.Body` -/
+/-- `maxBytes` of rest/handler/cryptionhandler.go: the cap for a body of unknown length when no limit is configured -/
+def maxBytes : Int := 1048576
+
+/-- the tail of `decryptBody` and of the handler: base64, `EcbDecrypt`, the wrapped handler on the plaintext -/
+def decryptAndServe (C : BlockCipher) (key : Bytes) (content : Bytes) (inner : Inner) : Resp :=
+  match b64Decode (bytesToString content) with
+  | none => { ran := false, status := 400 }
+  | some ct =>
+    match ecbDecrypt C key ct with
+    | .ok p => flushResp C key p (inner p)
+    | .panic => { ran := false, status := 0, panic := true }
+    | _ => { ran := false, status := 400 }
+
+/-- `LimitCryptionHandler(limitBytes, key)(next)` (after fixes/C18-chunked-body.patch).
+`cl` is `r.ContentLength` — the framing of the request: `> 0` a declared length, `0` no body, `-1` unknown length
+(`Transfer-Encoding: chunked`) — and `raw` the bytes `r.Body` yields.
+  * `cl = 0`: nothing to decrypt, the wrapped handler gets the request as it is;
+  * `cl > 0`: exactly `cl` bytes are read (`io.ReadFull`), a shorter body is an error;
+  * `cl < 0`: everything is read, up to `limitBytes` (`maxBytes` when no limit is set); a longer body is an error, an empty
+    one is passed on as it is. -/
 def cryptionHandler (C : BlockCipher) (limit : Int) (key : Bytes) (cl : Int) (raw : Bytes) (inner : Inner) : Resp :=
+  if cl = 0 then flushResp C key raw (inner raw)
+  else if limit > 0 ∧ cl > limit then { ran := false, status := 400 }
+  else if cl > 0 then
+    if (raw.length : Int) < cl then { ran := false, status := 400 }          -- io.ReadFull: unexpected EOF
+    else decryptAndServe C key (raw.take cl.toNat) inner
+  else if (raw.length : Int) > (if limit > 0 then limit else maxBytes) then { ran := false, status := 400 }
+  else if raw.isEmpty then flushResp C key [] (inner [])
+  else decryptAndServe C key raw inner
+
+/-- `LimitCryptionHandler` as pinned before the fix: every `ContentLength <= 0` — a chunked body included — went to the
+wrapped handler undecrypted. Kept for the witness theorem `chunked_body_not_decrypted_pinned`. -/
+def cryptionHandlerPinned (C : BlockCipher) (limit : Int) (key : Bytes) (cl : Int) (raw : Bytes) (inner : Inner) : Resp :=
   if cl ≤ 0 then flushResp C key raw (inner raw)
   else if limit > 0 ∧ cl > limit then { ran := false, status := 400 }
-  else if (raw.length : Int) < cl then { ran := false, status := 400 }          -- io.ReadFull: unexpected EOF
-  else match b64Decode (bytesToString (raw.take cl.toNat)) with
-    | none => { ran := false, status := 400 }
-    | some ct =>
-      match ecbDecrypt C key ct with
-      | .ok p => flushResp C key p (inner p)
-      | .panic => { ran := false, status := 0, panic := true }
-      | _ => { ran := false, status := 400 }
+  else if (raw.length : Int) < cl then { ran := false, status := 400 }
+  else decryptAndServe C key (raw.take cl.toNat) inner
 
 /-! ## content security -/
 
@@ -257,9 +282,9 @@ structure CsReq where
   path   : String                 -- r.URL.Path
   query  : String                 -- r.URL.RawQuery
   uri    : String                 -- X-Request-Uri header ("" = absent)
-  header : Option (String × String × String)   -- X-Content-Security fields key, secret, signature (none = header absent)
-  cl     : Int                    -- r.ContentLength
-  body   : Bytes
+  headers : List String           -- the values of X-Content-Security in the order net/http stored them ([] = absent)
+  cl     : Int                    -- r.ContentLength: > 0 declared length, 0 no body, -1 unknown length (chunked)
+  body   : Bytes                  -- the bytes r.Body yields (all of them, whatever `cl` says)
 
 structure CsHeader where
   key         : Bytes
@@ -272,9 +297,18 @@ inductive CsParseErr where
   | invalidHeader | invalidPublicKey | invalidSecret | invalidKey | invalidContentType
   deriving Repr, DecidableEq
 
+/-- `r.Header.Get`: the first value, "" when the header is absent -/
+def headerGet (vs : List String) : String := vs.headD ""
+
+/-- the three fields `ParseContentSecurity` takes from the header: fingerprint, secret, signature
+(`httpx.ParseHeader` on the first header value; a repeated field: the last one wins; names are case sensitive) -/
+def headerTriple (req : CsReq) : String × String × String :=
+  let attrs := parseHeaderFields (headerGet req.headers)
+  (attr attrs "key", attr attrs "secret", attr attrs "signature")
+
 /-- `security.ParseContentSecurity` -/
 def parseContentSecurity (env : CsEnv) (req : CsReq) : Except CsParseErr CsHeader :=
-  let hd := req.header.getD ("", "", "")
+  let hd := headerTriple req
   if hd.1.isEmpty ∨ hd.2.1.isEmpty ∨ hd.2.2.isEmpty then .error .invalidHeader
   else match env.rsa hd.1 hd.2.1 with
     | .noKey => .error .invalidPublicKey
@@ -295,9 +329,14 @@ def pathQuery (env : CsEnv) (req : CsReq) : String × String :=
     | none => (req.path, req.query)
     | some pq => pq
 
+/-- `computeBodySignature`: `r.Body` is duplicated (`iox.DupReadCloser`), one copy is read to its end into SHA-256, the
+other copy is what the next reader gets. Everything `r.Body` yields is hashed — `r.ContentLength` is not consulted,
+so a declared length, an unknown length (chunked) and "no body" are all treated alike. -/
+def bodySignature (env : CsEnv) (body : Bytes) : String := env.sha256Hex body
+
 /-- the text that is signed: timestamp, method, path, query, hex digest of the body, joined by line feeds -/
 def signContent (env : CsEnv) (ts method path query : String) (body : Bytes) : String :=
-  "\n".intercalate [ts, method, path, query, env.sha256Hex body]
+  "\n".intercalate [ts, method, path, query, bodySignature env body]
 
 /-- the time window of `VerifySignature` -/
 def outsideWindow (seconds tol now : Int) : Bool :=
@@ -320,14 +359,15 @@ def gatedMethods : List String := ["DELETE", "GET", "POST", "PUT"]
 def verificationFailure (strict : Bool) (inner : Inner) (body : Bytes) : Resp :=
   if strict then { ran := false, status := 403 } else plainNext inner body
 
-/-- `LimitContentSecurityHandler(limit, decrypters, tolerance, strict)(next)` with the default callback -/
+/-- `LimitContentSecurityHandler(limit, decrypters, tolerance, strict)(next)` with the default callback
+(after fixes/C18-chunked-body.patch: `r.ContentLength != 0 && header.Encrypted()`) -/
 def contentSecurity (C : BlockCipher) (env : CsEnv) (cfg : CsCfg) (req : CsReq) (inner : Inner) : Resp :=
   if gatedMethods.contains req.method then
     match parseContentSecurity env req with
     | .error _ => verificationFailure cfg.strict inner req.body
     | .ok h =>
       if verifySignature env cfg.tol req h ≠ 0 then verificationFailure cfg.strict inner req.body
-      else if req.cl > 0 ∧ h.contentType = 1 then cryptionHandler C cfg.limit h.key req.cl req.body inner
+      else if req.cl ≠ 0 ∧ h.contentType = 1 then cryptionHandler C cfg.limit h.key req.cl req.body inner
       else plainNext inner req.body
   else plainNext inner req.body
 
